@@ -17,7 +17,7 @@ RULE = ("M {1,2,5} x backlog {M+1, 3M, 50} x durations {0, 1ms, 1s, 6s} x tasks_
         "fingerprint = (broker, M, backlog, duration, tasks_limit, queues) | (plugin, sequence); trivial = none")
 ASSUMPTIONS = ["Redis and RabbitMQ are wire-level fakes", "virtual time; run() must return within longest actor + graceful period + 10 s after the M-th completion"]
 EVAL_COUNTER = "runs_judged"
-REQUIRED = ["runs_judged", "leftovers_checked", "plugin_enqueues", "runs_limit_lt_backlog_concurrent", "late_arrival_runs"]
+REQUIRED = ["runs_judged", "leftovers_checked", "plugin_enqueues", "runs_limit_lt_backlog_concurrent", "late_arrival_runs", "limit_hook_evaluations"]
 CASE_TIMEOUT = 150
 
 
@@ -67,6 +67,22 @@ async def limit_scenario(loop, case, out, stats, fps, samples):
             await w.job(f"act{qi}", id_, {"do": "ok", "d": d}, queue=queues[qi], retries=2, timeout=timedelta(seconds=60), store_result=False).enqueue()
         graceful = 20.0  # longer than every actor here: forced cancellation is C03's subject
         worker = w.worker([r], messages_limit=M, tasks_limit=tl, graceful_shutdown_time=graceful, handle_signals=[])
+        # invariant at a hook (harness-side class-level wrapper): after every task-done callback the stop flag must be
+        # up as soon as finished + in-flight (slots taken) reach the limit
+        from repid._runner import _Runner
+
+        orig_cb = _Runner._task_callback
+        hook_log = []
+
+        def cb(self, task):
+            orig_cb(self, task)
+            try:
+                taken = self._tasks_concurrency_limit - self._limiter._value
+                hook_log.append((self._tasks_processed, taken, self.stop_consume_event.is_set(), self.max_tasks))
+            except AttributeError:
+                hook_log.append(None)
+
+        _Runner._task_callback = cb
         t0 = loop.time()
         task = loop.create_task(worker.run())
 
@@ -96,6 +112,7 @@ async def limit_scenario(loop, case, out, stats, fps, samples):
         except Exception as exc:  # noqa: BLE001
             raised = True
             out.append(V("no_return", kind, f"raised:{type(exc).__name__}", f"Worker.run raised {exc!r}"))
+        _Runner._task_callback = orig_cb
         t_ret = loop.time()
         if prod is not None:
             try:
@@ -111,6 +128,14 @@ async def limit_scenario(loop, case, out, stats, fps, samples):
         fps.add(f"{kind}/{M}/{backlog}/{d}/{tl}/{nq}")
         starts = w.events("actor_start")
         exits = w.events("actor_exit")
+        if hook_log and all(h is not None for h in hook_log):
+            stats["limit_hook_evaluations"] += len(hook_log)
+            for processed, taken, flag, mx in hook_log:
+                if processed + taken >= mx and not flag:
+                    out.append(V("overshoot", kind, "stop-flag-not-raised", f"after a task-done callback: finished={processed}, slots taken={taken}, messages_limit={mx}, but the stop flag is not set (M={M}, tasks_limit={tl}, {nq} queues)"))
+                    break
+        else:
+            stats["limit_hook_unavailable"] += 1
         if not returned:
             out.append(V("no_return", kind, ctx, f"run() did not return within {bound:.1f}s (M={M}, backlog {backlog}, d={d}); starts={len(starts)}"))
         if len(starts) > M:
@@ -122,6 +147,8 @@ async def limit_scenario(loop, case, out, stats, fps, samples):
                 # one message per consumer loop can slip through in the window between the stop flag (raised in the M-th
                 # task's done-callback) and the cancellation of the loop: parked on the semaphore, or already handed over
                 sub += "/in-the-stop-window"
+            # with fewer slots than M the flag is raised in anticipation (in-flight executions count): the bound is exact there
+            sub += "/tl<M" if tl < M else ("/tl=M" if tl == M else "/tl>M")
             out.append(V("overshoot", kind, sub, f"messages_limit={M}, backlog {backlog}, actor duration {d}s, tasks_limit={tl}, {nq} queue(s): {len(starts)} actor executions started (M-th completion at {t_mth}, {len(late)} started after it)"))
         if returned and not raised and len(exits) < min(M, backlog) and len(starts) <= M:
             out.append(V("no_return", kind, "returned-early", f"run() returned after {len(exits)} completions with messages_limit={M}"))
